@@ -282,6 +282,19 @@ def build_graph(
             f"trace_function returned {len(trace_outputs)} output(s), "
             f"but {len(outputs)} were declared in outputs."
         )
+    # An output of a graph has to be produced in the graph: a value of an enclosing graph,
+    # an input of this graph, or a value returned twice is copied (it also keeps its name).
+    produced_outputs: list[ir.Value] = []
+    for returned_val in trace_outputs:
+        producer = returned_val.producer()
+        if (
+            producer is None
+            or producer.graph is not subgraph
+            or any(returned_val is other for other in produced_outputs)
+        ):
+            returned_val = sub_builder.op.Identity(returned_val)
+        produced_outputs.append(returned_val)
+    trace_outputs = produced_outputs
     for returned_val, declared_val in zip(trace_outputs, outputs):
         if declared_val.name:
             returned_val.name = declared_val.name
